@@ -12,7 +12,7 @@ RULE = ('one run = one seeded scenario (CONNECT tunnel carrying byte strings bot
         'one proxy send() was short or hit EAGAIN and at least one payload byte was relayed; distinct '
         '= distinct event-log digests among non-trivial runs')
 STATE_MEASURE = 'not measured for this property'
-PROBES = ['tunnel', 'http', 'threaded', 'tunnel_class', 'partial_flush_tail', 'both_directions_inflight']
+PROBES = ['bulk', 'tunnel', 'http', 'threaded', 'tunnel_class', 'partial_flush_tail', 'both_directions_inflight']
 COMPONENTS = {
     'real': ['proxy/core/work/threadless.py', 'proxy/core/work/fd/*.py', 'proxy/core/work/threaded.py',
              'proxy/http/handler.py', 'proxy/http/proxy/server.py', 'proxy/core/base/tcp_server.py',
@@ -26,7 +26,7 @@ ASSUMPTIONS = [
     'origins send well-formed responses; aborts belong to C07/C10',
 ]
 TIERS = {
-    'quick': {'runs': 8000, 'budget_s': 40, 'max_body': 1024, 'max_tunnel': 2048, 'max_units': 300},
+    'quick': {'runs': 8000, 'budget_s': 40, 'max_body': 100000, 'max_tunnel': 300000, 'max_units': 300},
     'thorough': {'runs': 600000, 'budget_s': 900, 'watchdog_s': 600, 'max_body': 1 << 20, 'max_tunnel': 2 << 20, 'max_units': 4000},
 }
 
@@ -42,7 +42,7 @@ def run_one(tape: Any, cfg: Dict[str, Any], forbid: FrozenSet[str] = frozenset()
     res = Result()
     mode = ['tunnel', 'http', 'tunnel_class'][tape.weighted([4, 4, 1], 'mode')]
     threaded = mode != 'tunnel_class' and g.feature('threaded', 0.15)
-    with World(tape) as w:
+    with World(tape, step_cap=1000000) as w:
         scen.sched_swarm(w, tape)
         w.dns['up.example'] = ['10.0.0.1']
         port = 443 if mode != 'http' else 80
@@ -67,6 +67,24 @@ def run_one(tape: Any, cfg: Dict[str, Any], forbid: FrozenSet[str] = frozenset()
         floor = scen.unit_floor(max(total_a, total_b), cfg['max_units'])
         caps = [scen.pick_cap(tape, floor, 'cap%d' % i) for i in range(4)]
         opts = scen.proxy_opts(tape, floor)
+        # archetype "bulk": default knobs, large socket buffers, a transfer several times their size -- the regime of
+        # large partial writes (tens of KiB accepted out of a 64 KiB slice), which independent small draws almost never meet
+        bulk = mode != 'tunnel_class' and g.feature('bulk', 0.12)
+        if bulk:
+            caps = [65536, 65536, 65536, 65536]
+            opts = {}
+            w.probe('bulk')
+            if mode == 'http':
+                big = (b'%05d:' % 7) * (cfg['max_tunnel'] // 6)
+                resps = [b'HTTP/1.1 200 OK\r\nContent-Length: %d\r\n\r\n' % len(big) + big]
+                metas = [{'framing': 'length'}]
+                nresp = 1
+                B = resps[0]
+                total_b = len(B)
+            else:
+                A = scen.body_bytes(tape, cfg['max_tunnel'] // 2 + tape.draw(cfg['max_tunnel'] // 2, 'bulkA'), 'A')
+                B = scen.body_bytes(tape, cfg['max_tunnel'] // 2 + tape.draw(cfg['max_tunnel'] // 2, 'bulkB'), 'B')
+                total_a, total_b = len(A), len(B)
         if mode == 'tunnel_class' and opts.get('client_recvbuf_size', 1 << 20) < 128:
             # the concrete tunnel class (mirroring examples/https_connect_tunnel.py) documents
             # that it expects the whole CONNECT request in its first read
@@ -74,6 +92,8 @@ def run_one(tape: Any, cfg: Dict[str, Any], forbid: FrozenSet[str] = frozenset()
         if mode == 'tunnel_class':
             caps[2] = max(caps[2], 128)
         maxchunk = max(floor, [1 << 16, 4096, 256, 16, 3][tape.draw(5, 'peerchunk')])
+        if bulk:
+            maxchunk = 1 << 16      # peers move whole buffers; the interesting part is what the proxy's sends return
         faults = scen.setup_faults(w, tape, {'send': ['short', 'eagain']}, budget=400)
         # ---- system under test ------------------------------------------
         if mode == 'tunnel_class':
@@ -106,7 +126,7 @@ def run_one(tape: Any, cfg: Dict[str, Any], forbid: FrozenSet[str] = frozenset()
             return [('send', B, 'dribble', maxchunk)]
 
         org = Origin(w, '10.0.0.1', port, origin_script, name='up', cap_in=caps[0], cap_out=caps[1],
-                     read_mode='chunky')
+                     read_mode='eager' if bulk else 'chunky')
         org.remote.faultable = faults      # type: ignore[attr-defined]
 
         def origin_tx() -> bytes:
@@ -167,7 +187,7 @@ def run_one(tape: Any, cfg: Dict[str, Any], forbid: FrozenSet[str] = frozenset()
             script.append(('send', req, 'burst' if mode == 'tunnel_class' else rmode, 7))
             script.append(('wait_rx', lambda p: b'\r\n\r\n' in p.rx))
             script.append(('send', A, 'dribble', maxchunk))
-        cl = Peer(w, 'client', script, read_mode='chunky')
+        cl = Peer(w, 'client', script, read_mode='eager' if bulk else 'chunky')
         cl.on_rx = check_client
         cl.connect_fn = h.connector(cap_to_proxy=caps[2], cap_to_client=caps[3], faultable=faults)
 
